@@ -73,6 +73,13 @@ func fifoReaderHook(source string, r io.Reader) io.Reader {
 	g := fifoGates[source]
 	fifoGatesMu.Unlock()
 	if g == nil {
+		if e := shortReadEnv; e != nil {
+			if f, ok := r.(*os.File); ok {
+				if fi, err := f.Stat(); err == nil && fi.Mode().IsRegular() {
+					return &shortReader{e: e, r: r}
+				}
+			}
+		}
 		return r
 	}
 	if f, ok := r.(*os.File); ok {
@@ -172,4 +179,42 @@ func (w *fifoWriter) Close() error {
 	w.g.broadcast()
 	w.g.mu.Unlock()
 	return err
+}
+
+// ---- short reads on regular files -------------------------------------------
+//
+// read(2) on a regular file may return fewer bytes than asked for, and an
+// io.Reader always may. In the runs that enable it, the reader a file stream
+// hands to its LineReader returns, for one read in three, only the first
+// 1..4096 bytes of what the kernel would have returned (the buffer passed down
+// is shortened; nothing is read and thrown away). Drawn from the "io" stream,
+// inside scheduled tasks: replayable.
+
+var shortReadEnv *Env // set per run by enableShortReads; cleared at the start of every run
+
+type shortReader struct {
+	e *Env
+	r io.Reader
+}
+
+func (s *shortReader) Read(p []byte) (int, error) {
+	if len(p) > 1 && s.e.Choose("io", 3) == 0 {
+		n := []int{1, 2, 3, 7, 100, 4096}[s.e.Choose("io", 6)]
+		if n < len(p) {
+			p = p[:n]
+			s.e.Fault("short_read")
+		}
+	}
+	return s.r.Read(p)
+}
+
+// enableShortReads turns short reads on for this run with probability 1/4.
+func enableShortReads(e *Env) {
+	if simrt.ReaderHook == nil {
+		resetFifoGates()
+	}
+	if e.Choose("knob", 4) == 0 {
+		shortReadEnv = e
+		e.Probe("short_reads_enabled")
+	}
 }
